@@ -78,7 +78,8 @@ class Templ:
             i = r.randrange(n)
             vals = [round(r.uniform(-3, 3), 3) for _ in range(n)]
             vals[i] = x
-            return V(self._new(vals, "float", size=n), i)
+            # (the same item through a negative index in a third of the cases: -n is the first element)
+            return V(self._new(vals, "float", size=n), i - n if r.random() < 0.33 else i)
         if form == "nest":
             a = gen.pick(r, [2.0, 0.5])
             b = gen.pick(r, [1.0, -1.0])
@@ -115,7 +116,7 @@ class Templ:
             i = r.randrange(n)
             vals = [r.randint(1, 50) for _ in range(n)]
             vals[i] = d
-            return V(self._new(vals, "int", size=n), i)
+            return V(self._new(vals, "int", size=n), i - n if r.random() < 0.33 else i)
         raise AssertionError(form)
 
     def maybe_f(self, x):
